@@ -711,6 +711,7 @@ func main() {
 	repo := flag.String("repo", "/repo", "repository root")
 	out := flag.String("out", "", "output .v file")
 	report := flag.String("report", "", "output report (json)")
+	acc := flag.String("acc", "", "output .v file of the accessor copy/alias table (GenAcc.v)")
 	flag.Parse()
 	plain := []string{"float64", "float32", "int", "int8", "int16", "int32", "int64"}
 	real := []string{"real64", "real32"}
@@ -770,6 +771,20 @@ func main() {
 		}
 	}
 	b.WriteString(strings.Join(bodies, "\n"))
+	if *acc != "" {
+		at, arep, aok := accText(*repo, plain, real)
+		rep["accessors"] = arep
+		if !aok {
+			okAll = false
+		}
+		old, _ := os.ReadFile(*acc)
+		if string(old) != at {
+			if err := os.WriteFile(*acc, []byte(at), 0644); err != nil {
+				fmt.Fprintln(os.Stderr, err)
+				os.Exit(2)
+			}
+		}
+	}
 	rep["ok"] = okAll
 	if *out != "" {
 		old, _ := os.ReadFile(*out)
